@@ -140,8 +140,8 @@ func main() {
 	sf := Funcs(sdb)
 	pf := Funcs(pre)
 
-	// const maxMultistoreCacheCount … = N
-	limit := "-1"
+	// package-level integer constants of x/evm/statedb
+	consts := map[string]string{}
 	for _, fl := range sdb {
 		for _, d := range fl.F.Decls {
 			gd, ok := d.(*ast.GenDecl)
@@ -151,9 +151,9 @@ func main() {
 			for _, sp := range gd.Specs {
 				vs := sp.(*ast.ValueSpec)
 				for i, n := range vs.Names {
-					if n.Name == "maxMultistoreCacheCount" && i < len(vs.Values) {
+					if i < len(vs.Values) {
 						if bl, ok := vs.Values[i].(*ast.BasicLit); ok && bl.Kind == token.INT {
-							limit = bl.Value
+							consts[n.Name] = bl.Value
 						}
 					}
 				}
@@ -161,15 +161,39 @@ func main() {
 		}
 	}
 
+	// The per-tx limit and the call counter are found by their ROLE, not by their names: inside
+	// SavePrecompileCalledJournalChange (through helpers of package statedb) a field `x.f` is compared with a
+	// package-level integer constant `c`: f is the counter, c the limit (whatever they are called).
+	countName, limitName := "", ""
+	probe := &walker{funcs: sf, classer: func(n ast.Node) string {
+		if be, ok := n.(*ast.BinaryExpr); ok && countName == "" {
+			for _, pair := range [][2]ast.Expr{{be.X, be.Y}, {be.Y, be.X}} {
+				sel, ok1 := pair[0].(*ast.SelectorExpr)
+				id, ok2 := pair[1].(*ast.Ident)
+				if ok1 && ok2 {
+					if _, isConst := consts[id.Name]; isConst {
+						countName, limitName = sel.Sel.Name, id.Name
+					}
+				}
+			}
+		}
+		return ""
+	}}
+	probe.events(sf["SavePrecompileCalledJournalChange"], false, map[string]bool{})
+	limit := "-1"
+	if v, ok := consts[limitName]; ok {
+		limit = v
+	}
+
 	// SavePrecompileCalledJournalChange (through helpers of package statedb): the journal append, the
 	// increment of the counter and the comparison with the limit, normalised to "count REL limit"
 	isCount := func(e ast.Expr) bool {
 		sel, ok := e.(*ast.SelectorExpr)
-		return ok && sel.Sel.Name == "multistoreCacheCount"
+		return ok && countName != "" && sel.Sel.Name == countName
 	}
 	isLimit := func(e ast.Expr) bool {
 		id, ok := e.(*ast.Ident)
-		return ok && id.Name == "maxMultistoreCacheCount"
+		return ok && limitName != "" && id.Name == limitName
 	}
 	flip := map[string]string{">": "<", "<": ">", ">=": "<=", "<=": ">=", "==": "==", "!=": "!="}
 	sw := &walker{funcs: sf, classer: func(n ast.Node) string {
